@@ -91,6 +91,9 @@ def _judge(ctx, lines):
         if not ln.strip():
             continue
         e = json.loads(ln)
+        if e["ev"] == "pair":      # composite answers for the latest height: judged by TLC in the common run (PairVerdict)
+            rest.append(ln)
+            continue
         if e["ev"] != "begin" and _candidate(e):
             c = classes.setdefault(_class(e), [0, e, ln])
             c[0] += e.get("n", 1)
